@@ -501,6 +501,12 @@ def c08_cases(rng, tier):
                       [P(7), P(8), P(2), P(10238), op("STOR")], [P(7), P(8), P(2), P(10237), op("STOR")]):
             cases.append(case(grow + tail_, sols=RICH_SOLS))
     cases += compute_corner_cases()
+    # hand-built states with zero, one and several parent memories: LoadParent / LoadParentRange read the innermost one
+    for pm_ in ([], [[7]], [[1, 2], [3, 4, 5]], [[1], [], [9, 8]], [[1, 2], []]):
+        for a_ in (-1, 0, 1, 2, 3):
+            cases.append(case([P(a_), op("LODP")], sols=RICH_SOLS, pm=pm_))
+            for ln_ in (0, 1, 2, 4):
+                cases.append(case([P(a_), P(ln_), op("LODPR")], sols=RICH_SOLS, pm=pm_))
     n = 1500 if tier == "quick" else 60000
     for _ in range(n):
         ops_ = random_program(rng, rng.randrange(2, 25), alphabet=data_alpha)
